@@ -26,6 +26,11 @@ LocalKinds   == {"ping", "quit", "unknown", "arity", "auth", "authbad", "reject"
 MultiKinds   == {"mget", "del", "mset"}
 ReadKinds    == {"get", "mget"}
 
+\* names of the nodes a scenario can redirect to (anything else is an address the proxy does not know)
+NodeNames == {"n1", "n2", "n3", "n4", "n5", "n6", "r1", "r2", "r3", "r4", "r5", "r6", "r7", "r8", "r9", "x1"}
+MasterNames == {"n1", "n2", "n3", "n4", "n5", "n6"}
+\* the abstract slot names of the three-master configurations and the master each belongs to
+HomeNode == [s \in {"A", "A2", "B", "B2", "C", "C2"} |-> CASE s \in {"A", "A2"} -> "n1" [] s \in {"B", "B2"} -> "n2" [] OTHER -> "n3"]
 NilTok == [c |-> "", i |-> 0, j |-> 0, s |-> "", n |-> "", v |-> "nil"]
 EmptyTok == [c |-> "", i |-> 0, j |-> 0, s |-> "", n |-> "", v |-> "empty"]     \* the key holds the empty string
 Rep(t, toks, num, txt) == [t |-> t, toks |-> toks, num |-> num, txt |-> txt]
@@ -132,11 +137,18 @@ GotViol(m, c, i, rep) ==
       answered == af = fs
       anyErr == \E f \in af : m.ans[f].kind = "err"
       anyExp == fs \cap m.expired # {}
-      fault  == m.connLost \/ anyExp \/ (\E f \in fs : f \in DOMAIN m.redir)
+      \* what excuses an error reply of the proxy's own: a lost backend connection, an expiry, a redirect to an address the
+      \* proxy does not know (a redirect to a node it knows must be followed: C13)
+      fault  == m.connLost \/ anyExp \/ (\E f \in fs : f \in DOMAIN m.redir /\ \E k \in DOMAIN m.redir[f] : m.redir[f][k].to \notin NodeNames)
       foreign == {k \in DOMAIN rep.toks : rep.toks[k].c # "" /\ (rep.toks[k].c # c \/ rep.toks[k].i # i)}
       v03 == IF foreign # {} THEN {<<"C03", c, i, "foreign-data">>} ELSE {}
       v01 == IF ~TypeFits(r.k, rep) THEN {<<"C01", c, i, "wrong-position">>} ELSE {}
-      v13 == IF rep.t = "err" /\ rep.txt \in {"MOVED", "ASK"} THEN {<<"C13", c, i, "redirect-leaked">>} ELSE {}
+      redirKnown == \E f \in fs : f \in DOMAIN m.redir /\ \A k \in DOMAIN m.redir[f] : m.redir[f][k].to \in NodeNames
+      v13 == (IF rep.t = "err" /\ rep.txt \in {"MOVED", "ASK"} THEN {<<"C13", c, i, "redirect-leaked">>} ELSE {})
+             \* a request redirected to nodes the proxy knows ends with what those nodes say, not with an error of the proxy's
+             \* own making (unless a connection was lost or a deadline passed on the way)
+             \cup (IF r.k \notin LocalKinds /\ redirKnown /\ IsErr(rep) /\ ~anyErr /\ ~fault
+                   THEN {<<"C13", c, i, "redirected-request-answered-with-an-error-of-the-proxy">>} ELSE {})
       v16 == (IF IsTimeoutErr(rep) /\ ~anyExp THEN {<<"C16", c, i, "spurious-timeout">>} ELSE {})
              \cup (IF HadTimeout(m, c) /\ (foreign # {} \/ ~TypeFits(r.k, rep))
                    THEN {<<"C16", c, i, "reply-after-a-timeout-is-not-the-request's">>} ELSE {})
@@ -188,11 +200,6 @@ WaitProp(m, c, i) ==
   ELSE IF \E f \in fs : f \notin m.rd THEN "C16"
   ELSE "C09"
 
-\* names of the nodes a scenario can redirect to (anything else is an address the proxy does not know)
-NodeNames == {"n1", "n2", "n3", "n4", "n5", "n6", "r1", "r2", "r3", "r4", "r5", "r6", "r7", "r8", "r9", "x1"}
-MasterNames == {"n1", "n2", "n3", "n4", "n5", "n6"}
-\* the abstract slot names of the three-master configurations and the master each belongs to
-HomeNode == [s \in {"A", "A2", "B", "B2", "C", "C2"} |-> CASE s \in {"A", "A2"} -> "n1" [] s \in {"B", "B2"} -> "n2" [] OTHER -> "n3"]
 \* a request one of whose fragments was redirected to a node the proxy knows: following the redirect must end with a reply (C13)
 Redirected(m, c, i) == \E f \in Frags(m, c, i) : f \in DOMAIN m.redir /\ \E k \in DOMAIN m.redir[f] : m.redir[f][k].to \in NodeNames
 
